@@ -43,6 +43,12 @@ def register(R):
                 for f in failed)),
             'no_spurious_set_exception': B(len(se) == len(failed)),
             'main_runs_at_most_once': B(len(em) <= 1),
+            # a task (in particular the final one, which announces done and so triggers the cleanups / abort)
+            # first waits for every future it depends on, on every path
+            'waits_for_its_dependencies_first_on_every_path': (B(
+                len(calls(tr, 'Task._wait_on_dependent_futures')) == 1
+                and index_of(tr, calls(tr, 'Task._wait_on_dependent_futures')[0]) == min(
+                    [index_of(tr, e) for e in tr if e.kind in ('call', 'ext')] or [0])), ['C05', 'C04', 'C08', 'C03']),
             # _main is not invoked for a transfer that was already done (failed / cancelled) when checked
             'main_only_if_not_done_at_the_check': z3.And([B(True)] + [
                 _not_done_before(tr, e) for e in em]),
